@@ -178,8 +178,8 @@ def build_hist(backend, extra=False, flags=False, ndebug=False, plain=False, deb
     if os.path.isdir(d):
         shutil.rmtree(d)
     defs = (["-DEAV_EXTRA"] if extra else []) + (FLAG_DEFS if flags else []) + (ALT_CONFIG if ndebug else []) + (["-D_DEBUG"] if debug else [])     # debug: the Makefile's own `make debug` configuration
-    objs = compile_lib(d, backend, ASAN, defs)
-    ext = undefined_externals(objs)
+    objs = compile_lib(d, backend, ASAN + ["-fsanitize-coverage=trace-pc-guard"], defs)      # edge coverage of the library only (corpus growth)
+    ext = [x for x in undefined_externals(objs) if not x.startswith("__sanitizer_cov")]
     rename_writable_sections(objs)
     inc = ["-I" + os.path.join(REPO, "include"), "-I" + REPO] + BACKEND_DEFS[backend] + defs
     sim = os.path.join(VERIF, "sim")
@@ -244,7 +244,7 @@ def build_locale():
         return None
 
 
-CLI_WRAPS = ["fopen", "abort", "__assert_fail", "exit", "fileno", "fstat", "isatty", "setlocale", "strerror"]
+CLI_WRAPS = ["fopen", "abort", "__assert_fail", "exit", "fileno", "fstat", "isatty", "setvbuf", "setlocale", "strerror"]
 
 
 def build_cli(ndebug=False):
@@ -294,7 +294,7 @@ def build_cli(ndebug=False):
 SCHED_WRAPS = ["malloc", "free", "calloc", "realloc", "strdup", "strndup", "strlen", "strchr", "strrchr", "strstr", "strspn", "strcspn",
                "strncasecmp", "strcasecmp", "strcmp", "strncmp", "memcpy", "memmove", "memset", "memcmp", "memchr", "strcpy", "strncpy",
                "sprintf", "snprintf", "vsprintf", "vsnprintf", "strcat", "strncat", "stpcpy", "strtok_r", "strsep",
-               "idn2_to_ascii_8z", "strtok", "strerror", "rand", "srand", "setlocale", "getenv", "setenv", "unsetenv", "putenv", "clearenv", "abort", "__assert_fail", "atexit", "on_exit",
+               "idn2_to_ascii_8z", "strtok", "strerror", "rand", "srand", "setlocale", "getenv", "setenv", "unsetenv", "putenv", "clearenv", "abort", "__assert_fail", "atexit", "on_exit", "hcreate", "hsearch", "hdestroy", "localtime", "gmtime", "asctime", "ctime", "random", "srandom", "drand48", "lrand48",
                "pthread_mutex_lock", "pthread_mutex_trylock", "pthread_mutex_unlock", "pthread_mutex_init", "pthread_mutex_destroy",
                "pthread_rwlock_rdlock", "pthread_rwlock_wrlock", "pthread_rwlock_unlock", "pthread_once", "sched_yield"]
 
